@@ -422,6 +422,7 @@ esl_rand64_Deal(ESL_RAND64 *rng, int64_t m, int64_t n, int64_t *deal)
   if (m > 1) vitter_a(rng, m, n, j, deal+i);
   else {
     S         = floor(n * Vprime);
+    if (S >= n) S = n-1;                  // Vprime == 1.0 exactly can be accepted by <Vprime <= 1.> above; keep the last sample in 0..n-1
     j        += S+1;
     deal[i++] = j;
   }
